@@ -13,7 +13,7 @@ import (
 var allTys = []Ty{TNum, TInt, TStr, TBool, TNull, TArrInt, TArrStr, THash1, THash2}
 
 var wildNames = []string{"i0", "i1", "n0", "n1", "s0", "s1", "b0", "z0", "an0", "as0", "h0", "h1",
-	"per", "pp", "np", "mi", "ms", "sl", "em", "nm", "ns", "neg", "zero", "numstr", "big", "nope", "loop", "_self", "x", "y", "cyc", "cn", "en", "nanm"}
+	"per", "pp", "np", "mi", "ms", "sl", "em", "nm", "ns", "neg", "zero", "numstr", "big", "nope", "loop", "_self", "x", "y", "cyc", "cn", "en", "nanm", "sl1", "sl2", "nsp"}
 
 // WildCtx is the context of wild programs: the standard variables plus the
 // Go value menagerie.
@@ -32,6 +32,10 @@ func WildCtx() map[string]sb.V {
 		"sl": {K: "slice:int", E: []sb.V{num(5), num(6)}}, "em": {K: "arr"}, "nm": {K: "nilmap:str"}, "ns": {K: "nilslice:int"},
 		"neg": num(-4), "zero": num(0), "numstr": str("12"), "big": num(1e18),
 		// data that refers back to itself, a nil embedded pointer, a NaN map key
+		// lists marked as safe, lists sharing their sub-lists, a nil pointer to a SafeValue implementation
+		"sl1": {K: "safe", TS: []string{"html"}, E: []sb.V{{K: "arr", E: []sb.V{num(1), num(2)}}}},
+		"sl2": {K: "safe", TS: []string{"html"}, E: []sb.V{{K: "arr", E: []sb.V{num(1), num(2)}}}},
+		"nsp": {K: "nilptr:customsafe"},
 		"cyc": {K: "cyclicmap"}, "cn": {K: "cyclicnode"}, "en": {K: "embednil", S: "Home"},
 		"nanm": {K: "map:float64:str", KV: []sb.V{{K: "nan"}, num(1)}, E: []sb.V{str("nan"), str("one")}},
 	}
